@@ -119,6 +119,13 @@ def gen_scenario(rng, ctype, r, c, F, sparse=0):
         sc.prequery = rng.random() < 0.4
         sc.sufficient_recipe(extras=int(rng.integers(0, 4)))
         sc.choose_entries()
+        if r == c and r >= 2 and rng.random() < 0.2:
+            # partly specified standards: only some columns (T types) or
+            # rows (U types) of a multi-port standard's S matrix are given;
+            # the set is kept if what is given still determines the terms
+            sc.partial_standards = sum(
+                1 for st in sc.stds
+                if st.n >= 2 and rng.random() < 0.5 and sc.make_partial(st))
         ok, kappa = sc.well_determined(KAPPA_MAX)
         if ok:
             if sc.can_apply() and rng.random() < 0.25:
@@ -338,6 +345,13 @@ def work(chunk_id, payload):
             part["distinct"].add(cell)
             k2 = "entry:%s%s" % (st.entry, "_m" if st.form == "m" else "")
             cnt[k2] = cnt.get(k2, 0) + 1
+        npart = sum(1 for st in sc.stds if st.partial())
+        if npart:
+            cnt["scenarios_with_partly_specified_standards"] = cnt.get(
+                "scenarios_with_partly_specified_standards", 0) + 1
+            cnt["partly_specified_standards"] = cnt.get(
+                "partly_specified_standards", 0) + npart
+            part["distinct"].add(("partial-S", sc.ctype, sc.r, sc.form))
         if getattr(sc, "scaled", False):
             cnt["scaled_scenarios"] = cnt.get("scaled_scenarios", 0) + 1
             part["distinct"].add(("scaled", sc.ctype, sc.r, sc.c, sc.form))
